@@ -17,6 +17,8 @@ ENGINES = {
     'E1': 'vf.engines.e1',
     'E2': 'vf.engines.e2',
     'E3': 'vf.engines.e3',
+    'E4': 'vf.engines.e4',
+    'E5': 'vf.engines.e5',
 }
 
 
